@@ -39,6 +39,11 @@ type PkgCase struct {
 	Nodes   []Node
 	Root    string
 	Formats []string
+	// the YAML text given to the parser spells some values as environment references (EnvEdit rewrites the rendered text, Env
+	// is the mapping the parser is given); the abstract configuration in the trace has the literal values.  Such cases are
+	// packaged from the parsed configuration as it is (Parse applies the defaults; no second WithDefaults by the caller).
+	EnvEdit func(yaml string) string
+	Env     map[string]string
 }
 
 // ---------------------------------------------------------------- building
@@ -79,6 +84,26 @@ func buildLikeCLI(cfg *nfpm.Config, f string) ([]byte, string, error) {
 	}
 	info = nfpm.WithDefaults(info)
 	fname := pk.ConventionalFileName(info)
+	var buf bytes.Buffer
+	err = pk.Package(info, &buf)
+	return buf.Bytes(), fname, err
+}
+
+// buildAsParsed packages the effective settings as Config.Get hands them out (Parse has applied the defaults to the
+// configuration; a library caller need not apply them again).
+func buildAsParsed(cfg *nfpm.Config, f string) ([]byte, string, error) {
+	pk, err := nfpm.Get(f)
+	if err != nil {
+		return nil, "", err
+	}
+	info, err := cfg.Get(f)
+	if err != nil {
+		return nil, "", err
+	}
+	fname := ""
+	if i2, err := cfg.Get(f); err == nil {
+		fname = pk.ConventionalFileName(i2)
+	}
 	var buf bytes.Buffer
 	err = pk.Package(info, &buf)
 	return buf.Bytes(), fname, err
@@ -755,8 +780,15 @@ func runPkgCase(tr *Trace, pc *PkgCase, scratch string) {
 		must(os.WriteFile(filepath.Join(pc.Root, "changelog.yaml"), []byte(pc.Cfg.ChangelogYAML()), 0o644))
 	}
 	yaml := pc.Cfg.YAML(pc.Root)
+	parse := parseCfg
+	if pc.EnvEdit != nil {
+		yaml = pc.EnvEdit(yaml)
+		parse = func(y string) (nfpm.Config, error) {
+			return nfpm.ParseWithEnvMapping(strings.NewReader(y), func(k string) string { return pc.Env[k] })
+		}
+	}
 	evs := []M{{"ev": "case", "id": pc.ID, "fam": pc.Profile, "cfg": pc.Cfg.M(), "tree": nodesM(pc.Nodes)}}
-	cfg, perr := parseCfg(yaml)
+	cfg, perr := parse(yaml)
 	if perr != nil {
 		evs = append(evs, M{"ev": "parse", "err": safeStr(strings.ReplaceAll(perr.Error(), pc.Root, "$ROOT"))})
 		evs = append(evs, M{"ev": "endcase"})
@@ -769,7 +801,7 @@ func runPkgCase(tr *Trace, pc *PkgCase, scratch string) {
 		os.Setenv("SOURCE_DATE_EPOCH", strconv.Itoa(pc.Cfg.Pmt))
 		defer os.Unsetenv("SOURCE_DATE_EPOCH")
 		var err error
-		if cfg, err = parseCfg(yaml); err != nil {
+		if cfg, err = parse(yaml); err != nil {
 			panic(err)
 		}
 	}
@@ -777,6 +809,9 @@ func runPkgCase(tr *Trace, pc *PkgCase, scratch string) {
 		build := buildFormat
 		if (pc.ID+i)%2 == 0 { // every other package: name first, then the same Info packaged (the CLI's sequence)
 			build = buildLikeCLI
+		}
+		if pc.EnvEdit != nil {
+			build = buildAsParsed
 		}
 		b, fname, err := build(&cfg, f)
 		msg := ""
@@ -876,7 +911,8 @@ func genMeta(rng *rand.Rand, c *Cfg) {
 		c.IpkFields = []KV2{{"Source", "feeds/app"}, {"Require-User", "app=100:app=100"}}[:1+rng.Intn(2)]
 	}
 	if rng.Intn(4) == 0 {
-		c.DebTriggers = []KV2{{"interest", "trig-a"}, {"interest", "trig-b"}, {"activate_noawait", "trig-c"}, {"interest_await", "trig-d"}}[:1+rng.Intn(4)]
+		c.DebTriggers = [][]KV2{{{"interest", "trig-a"}}, {{"interest", "trig-a"}, {"interest", "trig-b"}}, {{"activate_noawait", "trig-c"}, {"interest_await", "trig-d"}},
+			{{"activate", "trig-e"}}, {{"activate", "trig-e"}, {"activate_await", "trig-f"}, {"interest_noawait", "trig-g"}, {"interest", "trig-a"}}}[rng.Intn(5)]
 	}
 	if rng.Intn(3) == 0 {
 		c.RpmGroup = pick(rng, []string{"Unspecified", "System/Tools"})
